@@ -51,7 +51,9 @@ func newBufferPool(size int) *bufferPool {
 
 // Get retrieves a buffer from the pool.
 func (bp *bufferPool) Get() []byte {
-	return bp.xmitBuf.Get().([]byte)
+	buf := bp.xmitBuf.Get().([]byte)
+	verifPoolGet(buf)
+	return buf
 }
 
 // Put returns a buffer to the pool.
@@ -60,6 +62,7 @@ func (bp *bufferPool) Put(buf []byte) error {
 	if cap(buf) != mtuLimit {
 		return errBufferSizeMismatch
 	}
+	verifPoolPut(buf)
 	bp.xmitBuf.Put(buf[:cap(buf)]) // reset slice length to full capacity
 	return nil
 }
